@@ -1,0 +1,11 @@
+//go:build verif
+
+package mongokit
+
+import "github.com/256dpi/lungo/bsonkit"
+
+// VerifEntries returns the entries of the underlying index tree in tree
+// order. It is only available with the "verif" build tag.
+func (i *Index) VerifEntries() (keys [][]interface{}, docs bsonkit.List) {
+	return i.base.VerifEntries()
+}
